@@ -279,7 +279,7 @@ func runMirror(c *Ctx) {
 	}
 	c.R.Note("MIRROR", "adjacency fields by role: out=%s in=%s hash=%s", gf.out, gf.in, gf.hash)
 	mutators := map[string]bool{"Add": true, "AddOverwrite": true, "Remove": true, "AddEdge": true, "AddEdgeWeighted": true, "RemoveEdge": true}
-	hashcodeFn := p.Func(p.Graph, "hashcode")
+	hashcodeFn := p.HashcodeFn()
 
 	isHashOfParam := func(v ssa.Value, f *ssa.Function) (int, bool) {
 		call, ok := v.(*ssa.Call)
